@@ -99,3 +99,26 @@ func (fx *Facts) edgeEstablishes(from, to *ssa.BasicBlock, pred func(Fact) bool)
 	_, ok = fs.find(pred)
 	return ok
 }
+
+// insideLoopBody: b can only be reached through the body of some loop (it is dominated by a
+// successor of a loop header that stays in the loop) — true also for blocks that leave the loop
+// through a return or break.
+func insideLoopBody(b *ssa.BasicBlock) bool {
+	for h := b.Idom(); h != nil; h = h.Idom() {
+		isHeader := false
+		for _, p := range h.Preds {
+			if h.Dominates(p) {
+				isHeader = true
+			}
+		}
+		if !isHeader {
+			continue
+		}
+		for _, e := range loopBodyEntries(h) {
+			if e == b || e.Dominates(b) {
+				return true
+			}
+		}
+	}
+	return false
+}
